@@ -15,6 +15,7 @@ import (
 	"github.com/wrgl/wrgl/pkg/objects"
 	"github.com/wrgl/wrgl/pkg/pbar"
 	"github.com/wrgl/wrgl/pkg/sorter"
+	"github.com/wrgl/wrgl/pkg/vhook"
 )
 
 type asyncBlock struct {
@@ -78,12 +79,14 @@ func (i *Inserter) insertBlock() {
 	)
 	defer i.wg.Done()
 	for blk := range i.blocks {
+		vhook.Event("ins.take", "off", blk.Offset)
 		// write block and add block to table
 		sum, bb, err = objects.SaveBlock(i.db, bb, blk.Block)
 		if err != nil {
 			i.errChan <- err
 			return
 		}
+		vhook.Yield("ins.count")
 		i.rowsCount += uint32(blk.RowsCount)
 
 		// write block index and add pk sums to table index
@@ -100,12 +103,15 @@ func (i *Inserter) insertBlock() {
 			return
 		}
 		i.logger.Info("index block", "blockSum", sum, "indexSum", blkIdxSum)
+		vtok := vhook.Enter("ins.pub")
 		i.asyncBlocks = append(i.asyncBlocks, asyncBlock{
 			Offset: blk.Offset,
 			Sum:    sum,
 			IdxSum: blkIdxSum,
 			PK:     blk.PK,
 		})
+		vhook.Leave("ins.pub", vtok)
+		vhook.Event("ins.published", "off", blk.Offset, "rows", blk.RowsCount)
 		if i.pt != nil {
 			i.pt.Incr()
 		}
